@@ -337,6 +337,7 @@ struct SafeFn {
     asserts: Vec<(String, String)>,
     slots: Vec<(String, String, bool, Vec<String>)>,
     other_stmts: usize,
+    asserts_after_dispatch: usize,
 }
 
 fn parse_dispatch_invocation(ts: TokenStream) -> Vec<(String, String, bool, Vec<String>)> {
@@ -392,6 +393,9 @@ fn find_dispatch(stmts: &[syn::Stmt], f: &mut SafeFn) {
                     ) {
                         if args.len() >= 2 {
                             f.asserts.push((norm_len(&args[0]), norm_len(&args[1])));
+                            if !f.slots.is_empty() {
+                                f.asserts_after_dispatch += 1;
+                            }
                             continue;
                         }
                     }
@@ -472,6 +476,7 @@ fn safe_macros(src: &Source, out: &mut Output) -> Vec<SafeMacro> {
                         asserts: vec![],
                         slots: vec![],
                         other_stmts: 0,
+                        asserts_after_dispatch: 0,
                     };
                     find_dispatch(&f.block.stmts, &mut sf);
                     for s in sf.slots.iter_mut() {
@@ -743,7 +748,7 @@ pub fn gen_tables(root: &Path, out: &mut Output, harness_dir: &Path) {
                     }
                 };
                 safe_arm_rows.push(format!(
-                    "{{ macro_ := {}, form := {}, constDims := {}, params := {}, returnsValue := {}, asserts := {}, slots := {}, otherStmts := {} }}",
+                    "{{ macro_ := {}, form := {}, constDims := {}, params := {}, returnsValue := {}, asserts := {}, slots := {}, otherStmts := {}, assertsAfterDispatch := {} }}",
                     en(&sm.name),
                     form,
                     f.const_dims,
@@ -766,7 +771,8 @@ pub fn gen_tables(root: &Path, out: &mut Output, harness_dir: &Path) {
                             })
                             .collect::<Vec<_>>()
                     ),
-                    f.other_stmts
+                    f.other_stmts,
+                    f.asserts_after_dispatch
                 ));
             }
         }
@@ -866,6 +872,7 @@ pub fn gen_tables(root: &Path, out: &mut Output, harness_dir: &Path) {
                     };
                     let r = translate_fn(&reg, spec);
                     out.errors.extend(r.errors);
+                    out.non_impl_intrinsics.extend(r.intrinsics.iter().cloned());
                     out.items.push(format!("dispatch:{n}"));
                     dtext.push_str(&r.text);
                     dtext.push('\n');
